@@ -17,7 +17,10 @@ from ..symex import And, Or, Not, Iff, Eq, is_sym
 
 ID = 'C19'
 ACTIONS = ['I do nothing', 'I send event go', 'I send event go with n=2', 'I send event nope',
-           'I wait 3 seconds', 'I repeat "I send event go" 2 times', 'I send event back', 'I send event end']
+           'I wait 3 seconds', 'I repeat "I send event go" 2 times', 'I send event back', 'I send event end',
+           'I reproduce "base"']
+# the scenario that `I reproduce "base"` replays: its given/when steps are re-run with the calling keyword
+BASE = [('given', 'I send event go'), ('when', 'I send event back'), ('then', 'state A is active')]
 THENS = ['state B is entered', 'state B is not entered', 'state B is exited', 'state A is not exited',
          'state A is active', 'state C is not active', 'state nope is active',
          'event out is fired', 'event out is fired with v=5', 'event out is not fired', 'no event is fired',
@@ -147,6 +150,11 @@ class Driver:
 
     def act(self, kind, text, wait):
         it = self.it
+        if text.startswith('I reproduce'):
+            for k_, t_ in BASE:
+                if k_ in ('given', 'when'):
+                    self.act(kind, t_, wait)       # replayed with the keyword of the calling step
+            return
         reps = 1
         if text.startswith('I repeat'):
             reps = 2
@@ -278,9 +286,11 @@ def harness(g, job, level, canary=False):
                 raise
         ENV.after_step(ctx, st)
         return st.status
+    feature = types.SimpleNamespace(scenarios=[types.SimpleNamespace(
+        name='base', steps=[types.SimpleNamespace(step_type=k_, name=t_) for k_, t_ in BASE])])
     ctx = Ctx(config=types.SimpleNamespace(userdata={'statechart': sc, 'interpreter_klass': klass,
                                                      'property_statecharts': [], 'debug_on_error': False}),
-              table=None, feature=None)
+              table=None, feature=feature)
     ENV.before_scenario(ctx, None)
     ref = Driver(sc, {'X0': x0})
     text = '\n'.join('%s %s' % (k.capitalize(), t) for k, t in scen)
@@ -353,7 +363,8 @@ def post_levels(tier, seed, report):
         feat = os.path.join(d, 'gen.feature')
         out = os.path.join(d, 'out.json')
         with open(feat, 'w') as fh:
-            fh.write('Feature: generated\n')
+            fh.write('Feature: generated\n\n  Scenario: base\n' + ''.join(
+                '    %s %s\n' % (k_.capitalize(), t_) for k_, t_ in BASE))
             for i, (a, t) in enumerate(pairs):
                 fh.write('\n  Scenario: s%d\n    When %s\n    Then %s\n' % (i, a, t))
         try:
@@ -398,9 +409,11 @@ def replay_special(rec):
         feat = os.path.join(d, 'one.feature')
         out = os.path.join(d, 'out.json')
         with open(feat, 'w') as fh:
-            fh.write('Feature: replay\n\n  Scenario: s\n    %s\n    %s\n' % tuple(rec['scenario']))
+            fh.write('Feature: replay\n\n  Scenario: base\n' + ''.join(
+                '    %s %s\n' % (k_.capitalize(), t_) for k_, t_ in BASE))
+            fh.write('\n  Scenario: s\n    %s\n    %s\n' % tuple(rec['scenario']))
         execute_bdd(sc, [feat], interpreter_klass=_klass, behave_parameters=['-f', 'json', '-o', out, '--no-summary'])
         data = json.load(open(out))
-    st = [x.get('result', {}).get('status') for x in data[0]['elements'][0]['steps']]
+    st = [x.get('result', {}).get('status') for x in [el for el in data[0]['elements'] if el['name'] == 's'][0]['steps']]
     print(st, rec['fact'])
     return (st[1] == 'passed') != rec['fact'] or st[0] != 'passed'
